@@ -34,7 +34,7 @@ ASSUMPTIONS = [
 ]
 MIN_NONTRIVIAL = {'quick': 4000, 'thorough': 100000}
 REQUIRED_MONITORS = ['segment', 'all-colons', 'no-colons:cautious',
-                     'no-colons:required', 'keyword-channel', 'sec_within',
+                     'no-colons:required', 'no-colons:required+cautious', 'keyword-channel', 'sec_within',
                      'config-object-channel',
                      'hook:segment',
                      'hook:rebuild_sec_within', 'hook:findall_matching_sec',
@@ -180,6 +180,26 @@ def check_modes(case, ctx, rec, pytrs):
                 f"parse(sec_colon_required=True) on {short(nocol, 100)!r}: "
                 f"{[[t.trs, t.desc] for t in kr]} vs config channel {tr(r)}",
                 dedup='required')
+        # sec_colon_required is not weakened by sec_colon_cautious being on
+        # as well, whichever way the two come together
+        ctx.hit('no-colons:required+cautious')
+        both = len(nocol) % 3
+        if both == 0:
+            rb = pytrs.PLSSDesc(
+                nocol, config='sec_colon_cautious,sec_colon_required')
+        elif both == 1:
+            rb = pytrs.PLSSDesc(nocol, config='sec_colon_cautious')
+            rb.parse(sec_colon_required=True)
+        else:
+            rb = pytrs.PLSSDesc(nocol, config='sec_colon_cautious')
+            rb.sec_colon_required = True
+            rb.parse()
+        if tr(rb) != tr(r):
+            ctx.violation(
+                'required-weakened-by-cautious', case,
+                f"{short(nocol, 100)!r}: sec_colon_required together with "
+                f"sec_colon_cautious (way {both}) gave {tr(rb)}; "
+                f"sec_colon_required alone gives {tr(r)}", dedup=str(both))
         if len(r.tracts) != 1 or loose(r.tracts[0].desc) != loose(r.pp_desc):
             ctx.violation(
                 'required-without-colons-not-one-fallback-tract', case,
